@@ -702,6 +702,14 @@ class Verifier(HeapMaps):
                 ob.result, ob.backend, ob.reason, ob.model, ob.time = "failed", "none", "same clause already failed on two other paths (not solved again)", None, 0.0
             else:
                 self.discharge(ob, timeout_ms)
+                if ob.result == "undecided" and "unsupported" not in (getattr(ob, "reason", "") or ""):
+                    # a solver budget that is borderline for this query (a loaded machine is enough to tip it): one retry with four times the budget
+                    # before the obligation is reported as undecided
+                    first_time = ob.time
+                    self.discharge(ob, timeout_ms * 4)
+                    ob.time += first_time
+                    if ob.result == "discharged":
+                        ob.reason = ((getattr(ob, "reason", "") or "") + " (second attempt with 4x budget)").strip()
                 if ob.result == "failed" and ckey[1]:
                     failed_clauses[ckey] = failed_clauses.get(ckey, 0) + 1
             if os.environ.get("PYVC_TRACE"):
